@@ -1,6 +1,8 @@
 package main
 
 import (
+	"context"
+	"os/exec"
 	"encoding/json"
 	"flag"
 	"fmt"
@@ -37,6 +39,7 @@ type PropCfg struct {
 	Functions  []string     `json:"functions"`  // additional functions that must be under contract and verified
 	Bounded    []string     `json:"bounded"`    // names of bounded stand-ins (both tiers)
 	Conformance []string    `json:"conformance"` // bounded conformance runs of assumed contracts (thorough tier only)
+	Lean       []string     `json:"lean"`        // Lean files with the mathematical lemmas the ghost-sum rules rest on (thorough tier only)
 	Det        *DetCfg      `json:"determinism"` // C10: static effect/determinism analysis
 	DeleteOnly []string     `json:"delete_only"` // tables in which step functions may delete rows (static obligation over the SSA call graph)
 	Lemmas     []string     `json:"lemmas"`     // SMT-LIB lemma files (spec/lemmas): every check-sat must be unsat
@@ -686,6 +689,39 @@ func cmdCheck(args []string) {
 			violations = append(violations, fmt.Sprintf("VIOLATION property=%s replay=%s obligation=bounded.%s (%s)%s", cfg.ID, rf, bn, br.Status, suffix))
 		}
 	}
+	// mathematical lemmas checked by Lean/Mathlib (thorough tier): the delta rule of the ghost sums and the
+	// sub-family facts of the iterator model
+	var leanRes []map[string]interface{}
+	leanOK := false
+	if *tier == "thorough" {
+		for _, lf := range cfg.Lean {
+			path := filepath.Join(*specDir, "lean", lf)
+			t1 := time.Now()
+			ctx, cancel := context.WithTimeout(context.Background(), 30*time.Minute)
+			out, err := exec.CommandContext(ctx, "lean", path).CombinedOutput()
+			cancel()
+			status := "ok"
+			if err != nil || strings.Contains(string(out), "error:") || strings.Contains(string(out), "sorry") {
+				status = "failed"
+			}
+			src, _ := os.ReadFile(path)
+			var thms []string
+			for _, ln := range strings.Split(string(src), "\n") {
+				if strings.HasPrefix(ln, "theorem ") {
+					thms = append(thms, strings.Fields(ln)[1])
+				}
+			}
+			leanRes = append(leanRes, map[string]interface{}{"file": path, "status": status, "wall_s": time.Since(t1).Seconds(), "theorems": thms, "checker": "lean 4 + Mathlib (lean <file>)"})
+			if status != "ok" {
+				os.MkdirAll(replayDir, 0o755)
+				rf := filepath.Join(replayDir, "lean."+lf+".txt")
+				os.WriteFile(rf, []byte(fmt.Sprintf("property: %s\nlean file: %s\nstatus: %s\noutput:\n%s\n", cfg.ID, path, status, firstLines(string(out), 40))), 0o644)
+				violations = append(violations, fmt.Sprintf("VIOLATION property=%s replay=%s obligation=lean.%s (lemma not checked) no-failing-input-found", cfg.ID, rf, lf))
+			} else {
+				leanOK = true
+			}
+		}
+	}
 	// dedupe violations (same obligation on several paths)
 	violations = uniq(violations)
 	knownLines = uniq(knownLines)
@@ -700,7 +736,10 @@ func cmdCheck(args []string) {
 	sort.Strings(tb)
 	tb = append(tb, "x/tools go/ssa translation of Go to SSA; govc semantics of the SSA subset; z3 4.8.12 / z3 5.1.0 / cvc5 1.0.3",
 		"cosmos-sdk baseapp: a message that returns an error or panics has no effect on state; handlers and BeginBlock are the only writers of the module stores",
-		"lemma L-sum: updating one key of a finite map changes its sum by the delta (ghost aggregates)")
+		map[bool]string{
+			false: "lemma L-sum (delta rule of the ghost sums, sub-family facts of iterator prefix sums): assumed in this run; machine-checked by Lean/Mathlib (spec/lean/LSum.lean) in the thorough tier of C01",
+			true:  "lemma L-sum (delta rule of the ghost sums, sub-family facts of iterator prefix sums): machine-checked in this run by Lean/Mathlib (spec/lean/LSum.lean); the correspondence between the Lean statements and the engine's SMT encoding of the rules is by inspection",
+		}[leanOK])
 	if len(samples) == 0 {
 		for _, o := range obls {
 			if len(samples) < 3 {
@@ -737,6 +776,7 @@ func cmdCheck(args []string) {
 		"known_findings_reported":  knownLines,
 		"bounded_checks":           boundedRes,
 		"retried_with_longer_budget": nRetried,
+		"lean_lemmas":              leanRes,
 	}
 	ev := map[string]interface{}{
 		"property_id": cfg.ID,
